@@ -38,6 +38,27 @@ def err_wrap(ctx: Ctx) -> RuleResult:
     if not raises:
         r.violate("ExecNode.execute: the node's exception is swallowed", ex.loc(h), "the handler around the node call does not raise", None)
         return r
+    # every path through the handler leaves it by raising: no `return` (the failed node would count as finished), no fall-through
+    def ends_by_raising(block) -> bool:
+        if not block:
+            return False
+        last = block[-1]
+        if isinstance(last, ast.Raise):
+            return True
+        if isinstance(last, ast.If) and last.orelse:
+            return ends_by_raising(last.body) and ends_by_raising(last.orelse)
+        return False
+
+    leaves = [x for x in own_walk(h) if isinstance(x, (ast.Return, ast.Continue, ast.Break))]
+    ok_all = not leaves and ends_by_raising(h.body)
+    r.ob(ok_all, {"every path through the handler raises": ok_all})
+    if leaves:
+        r.violate(f"ExecNode.execute: the handler around the node call is left without raising ({norm_src(leaves[0])})", ex.loc(leaves[0]),
+                  "the node's exception is swallowed on that path: the node counts as finished without a result, its dependents are "
+                  "released and read None, and the call does not report the failure", norm_src(leaves[0]))
+        return r
+    if not ok_all:
+        raise Undecided("ExecNode.execute: cannot see that every path through the handler raises")
     wrapped = [x for x in raises if x.exc is not None and isinstance(x.exc, ast.Call)]
     r.require(len(wrapped) == 1, "ExecNode.execute: wrapping raise not recognised")
     w = wrapped[0]
